@@ -1,5 +1,5 @@
 """C08 -- field axioms with canonical representatives."""
-from .. import fields, tables
+from .. import fieldbig, fields, tables
 
 
 def field_tables(ctx, families=("ref", "opt"), lite=False):
@@ -17,3 +17,5 @@ def field_tables(ctx, families=("ref", "opt"), lite=False):
 
 def run(ctx):
     field_tables(ctx)
+    # full size: the twelve built-in 254/381-bit classes recomputed by TLC over BigNat
+    fieldbig.big_tables(ctx)
